@@ -211,7 +211,7 @@ theorem gr_convOK_new {ib ob : RNSBase} {c : BaseConverter} (hi : ib.WF) (ho : o
 theorem gr_extract_getD (p : RnsPoly) (s i : Nat) (hs : s ≤ p.size) (hi : i < s) : (p.extract 0 s).getD i #[] = p.getD i #[] := by
   have h1 : i < (p.extract 0 s).size := by simp; omega
   have h2 : i < p.size := by omega
-  simp [Array.getD, h1, h2, hi]
+  simp [Array.getD, h2, hi]
 
 theorem gr_flatP_extract (p : RnsPoly) (s : Nat) : flatP (p.extract 0 s) = ((p.toList.map Array.toList).take s).flatten := by
   unfold flatP
